@@ -178,6 +178,7 @@ theorem gl_exact_n1 (a b c0 c1 : Rat) (z pp : Nat → Rat) (hz : z 0 = 0) (hp : 
     unfold weight
     rw [glTable_closed 1 a b z pp 0 (by norm_num)]
     simp [rootIdx, half, hz, hp, weightOf, xHalfWidth]
+    try ring
   unfold glSum
   simp [List.range_succ, hn, hw]
   ring
